@@ -424,10 +424,10 @@ CONTRACTS = [
     Contract("wntr.network.controls:RelativeCondition.evaluate", P, [_relative_case(r) for r in RELS]),
     Contract("wntr.network.controls:And/OrCondition.evaluate+backtrack", P + ["C04"], [_composite_case(C.OrCondition), _composite_case(C.AndCondition)],
              interpret_always=(_eval_and_backtrack,)),
-    Contract("wntr.network.controls:ControlAction.__init__", P + ["C11"],
+    Contract("wntr.network.controls:ControlAction.__init__", P + ["C11", "C08"],
              [_action_init_case("status", "_user_status"), _action_init_case("setting", "_setting"), _action_init_case("leak_status", "_leak_status")],
              interpret_always=(C.ControlAction,)),
-    Contract("wntr.network.controls:ControlAction/_InternalControlAction.run_control_action", P + ["C04", "C11"],
+    Contract("wntr.network.controls:ControlAction/_InternalControlAction.run_control_action", P + ["C04", "C11", "C08"],
              [_action_run_case(k) for k in ("setting", "status", "internal")]),
     Contract("wntr.network.controls:Rule.is_control_action_required+run_control_action", P + ["C04"],
              [_rule_case(None), _rule_case(0), _rule_case(2)], interpret_always=(_required_then_run,)),
